@@ -127,6 +127,12 @@ def noPosMap : List (String × Val) → Bool
   | (_, v) :: r => noPos v && noPosMap r
 end
 
+/-- `L(args...)` returns `List{Val: args}`: the caller's slice itself (`LS` appends to a fresh slice,
+    `V` copies element by element) -/
+def sharesArgs : LTerm → Bool
+  | .L (_ :: _) => true
+  | _ => false
+
 /-- `HM`'s treatment of one entry value -/
 def buildEntry : LTerm → Val
   | .rawMap es => .map (buildHM es [])
